@@ -35,7 +35,7 @@ def nontrivial(prog):
 
 def judge(ctx, recs, origin):
     verdicts = ctx.validate('TraceScgf', 'TraceScgf.cfg', [c02_trace(r) for r in recs], timeout=1500,
-                            env={'JAVA_TOOL_OPTIONS': '-Xss32m'})
+                            env={'JAVA_TOOL_OPTIONS': sp.JVM_OPTS})
     for r in recs:
         if nontrivial(r['prog']):
             ctx.nontrivial(r['prog'])
@@ -135,8 +135,8 @@ def replay(ctx, rp):
 
 MANIFEST = dict(
     category='model_checking',
-    text='(filled in below)',
-    note='',
+    text=("ScgfWhy (SynthGraph.tla) states well-formedness of a version-2 definition over the structure produced by an independent reader (complete parse, counts, index ranges, inputs refer to constants or outputs of strictly earlier units, rates, control-unit ranges, variants); ScgfOrder.tla is the Emit action system (data antecedents and every earlier-created width-first unit first) with the library's topological sort as an L2 refinement, checked by TLC for every graph of 4 (thorough 5) units. TraceScgf.tla validates every real build: bytes well-formed, recorded emission order is a behaviour of Emit, no width-first unit lost, SynthDesc.new_from and SynthDesc._read_stream recover name / control names in slot order / defaults / rates / gate flag / bus units (class, rate, channels, starting channel), and programs the spec marks invalid (rate mismatch at a unit that cannot be dropped, NaN / text / None / empty list input) raise and give no bytes."),
+    note=('Programs: TLC-enumerated slices incl. rate-invalid ones, simulated long programs, seeded random programs with multi-output, width-first (LocalBuf/SetBuf/ClearBuf/FFT/PV/IFFT/RandSeed/RandID) and list-argument units, every name length 0..255, chains up to 300 (thorough 800) instructions. Not decided: float32 rounding of arbitrary defaults, variants beyond their size, non-ASCII names, names > 255. Creation order is read from the SynthDef object when the graph function returns.'),
     technique='TLA+ well-formedness predicate + Emit action system (L1) with the topological sort as L2 refinement, checked by '
               'TLC; batch validation of decoded bytes, emission order and SynthDesc round trips of real builds',
     design_ref='DESIGN.md section 3 / C02',
